@@ -493,6 +493,11 @@ func shadowTemplates() []shadowTpl {
 		{"placed/ignore-errors-then-value", "(progn (ignore-errors 1)\n{CALL})", 2},
 		{"placed/thread-first-initial", "(thread-first\n{CALL}\n(list))", 2},
 		{"placed/thread-last-step-arg", "(thread-last 1 (list\n{CALL}))", 2},
+		// a threading form used as a STEP of an enclosing one: where the outer value lands decides which of the inner
+		// form's children are still evaluated as written (under thread-last it is appended, the inner seed stays a seed)
+		{"placed/nested-thread/last-over-first-seed", "(thread-last (list 1) (thread-first\n{CALL}\n(list)))", 2},
+		{"placed/nested-thread/last-over-last-seed", "(thread-last (list 1) (thread-last\n{CALL}\n(list)))", 2},
+		{"placed/nested-thread/first-over-first-step-arg", "(thread-first 1 (thread-first (list) (list\n{CALL})))", 2},
 		{"placed/quasiquote-unquote", "(quasiquote (1 (unquote\n{CALL})))", 2},
 		{"placed/set-value", "(set 'zq\n{CALL})", 2},
 		{"placed/lambda-body-called", "((lambda ()\n{CALL}))", 2},
